@@ -294,5 +294,6 @@ def run(ctx):
     r1_entry_points(ctx)
     r2_to_r6_reapers(ctx)
     from . import C13, C09
+    C09.r3_recv_exits(ctx)   # every way the receive loop ends closes the session: a pooled session whose connection died reports closed
     C09.r4_close_body(ctx)   # close() raises the closed flag before it starts tearing the session down: is_closed(), which both the reuse path and the reaper rely on, is true for a dying session
     C13.r4_pool_keys(ctx)    # one key per session: a colliding key silently evicts (drops, never closes) a healthy pooled session
